@@ -175,6 +175,8 @@ fn run(ctx: &mut Ctx) {
         let mut opts = GenOpts::default();
         opts.big_padding = rng.chance(1, 4);
         let mut prog = gen_program(rng, &opts);
+        // an eighth of the programs use label names that continue with non-ASCII letters (lower-case ones included)
+        if rng.chance(1, 8) { let sfx = *rng.pick(&["é", "ω", "ж", "文", "ï2"]); widen_labels(&mut prog.stmts, sfx); ctx.count("programs.with-non-ascii-labels"); }
         let nf = match rng.below(10) { 0 | 1 => 0, 2..=6 => 1, 7 | 8 => 2, _ => 3 };
         let mut tags = vec![];
         for _ in 0..nf {
